@@ -15,7 +15,7 @@ from vlib.wire import Wire, same_json
 PROP = 'C04'
 MANIFEST = dict(
     text="Program-quantified symbolic check of Method.bind / ViewMethod.bind / BaseValidator through the real dispatchers: every syntactically valid signature of <= 3 (quick) / <= 4 (thorough) parameters over "
-         "{positional-only, positional-or-keyword, *args, keyword-only, **kw} x defaults, x context {none, by name at each position, positional-first, view constructor; truthy and falsy context objects} x {function, coroutine, view method}, plus the same function registered twice on one dispatcher (with its context setting and as a plain method, either served first); "
+         "{positional-only, positional-or-keyword, *args, keyword-only, **kw} x defaults, x context {none, by name at each position, positional-first, view constructor; truthy and falsy context objects} x {function, coroutine, plain callable returning a coroutine, view method}, plus the same function registered twice on one dispatcher (with its context setting and as a plain method, either served first); "
          "inputs: positional lists of length 0..5 with symbolic values and named mappings in which the PRESENCE of every candidate key (each parameter name, an unknown name, the context name) is a z3 boolean (all subsets explored). "
          "Oracle: a twin function with the same signature (minus the context) is called directly by Python; TypeError there <=> -32602 and the body did not run; otherwise the method saw exactly the twin's bound arguments plus the server-side context, and the result is returned unchanged.",
     ref='5 C04',
@@ -94,6 +94,10 @@ def obligations(tier):
                     # whichever registration is served first must not decide how the other binds
                     obs.append(dict(base, inp='list', ln=n, twice=1))
                     obs.append(dict(base, inp='named', twice=1, _weight=8))
+                if fk == 'coro' and cm in ('none', 'name') and n <= 2:
+                    wb = dict(base, fk='wcoro')
+                    obs.append(dict(wb, inp='list', ln=n))
+                    obs.append(dict(wb, inp='named', _weight=8))
                 if cm == 'view' and n >= 1 and not ({VP, VK} & {k for k, _ in sig}) and (n <= 2 or tier != 'quick'):
                     obs.append(dict(base, inp='list', ln=n, same=1))
                     obs.append(dict(base, inp='list', ln=n - 1, same=1))
@@ -192,7 +196,7 @@ def h_bind(ob):
             return 'n/a'
         params, ctx_name = built
         is_view = ob['fk'].startswith('view')
-        is_async = ob['fk'] in ('coro', 'view_async')
+        is_async = ob['fk'] in ('coro', 'view_async', 'wcoro')
         log = []
         names = [p[0] for p in params]
         rec = '(' + ''.join(f'{n}, ' for n in names) + ')'
@@ -210,6 +214,15 @@ def h_bind(ob):
         else:
             src = f"{kw} meth({_render(params)}):\n    log.append(({rec}, None))\n    return list({rec})\n"
             exec(src, ns)
+            if ob['fk'] == 'wcoro':
+                # a plain (non-async) callable that RETURNS a coroutine: an async def behind an ordinary functools.wraps decorator
+                import functools
+                inner = ns['meth']
+
+                @functools.wraps(inner)
+                def wrapper(*a, **k):
+                    return inner(*a, **k)
+                ns['meth'] = wrapper
         wire = Wire(env)
         cls = pjrpc.server.AsyncDispatcher if is_async else pjrpc.server.Dispatcher
         d = cls(**wire.kwargs())
